@@ -157,6 +157,7 @@ class GrowSet(SOpaque):
         super().__init__(name, cls=set)
         self.added = []         # values (or whole sets) added
         self.log = []
+        self.nonempty = z3.Bool(f"{name}_nonempty_{next(_ids)}")     # python truthiness of the set
 
     def getattr(self, I, name):
         if name == "update":
